@@ -5,13 +5,20 @@
 EXTENDS Integers, Sequences, FiniteSets, TLC
 
 \* ranges are <<start, stop>>, half open
+\* (the type annotations are for Apalache, which checks AllocateInd.tla; TLC ignores them)
+\* @type: (<<Int, Int>>) => Int;
 RLen(r) == r[2] - r[1]
+\* @type: (<<Int, Int>>, <<Int, Int>>) => Bool;
 Overlap(a, b) == (IF a[1] > b[1] THEN a[1] ELSE b[1]) < (IF a[2] < b[2] THEN a[2] ELSE b[2])
+\* @type: (<<Int, Int>>, Int) => Bool;
 Within(r, cap) == 0 <= r[1] /\ r[1] <= r[2] /\ r[2] <= cap
+\* @type: (<<Int, Int>>, Int) => Bool;
 AlignedTo(r, al) == r[1] % al = 0
 AlignUp(v, al) == ((v + al - 1) \div al) * al
 \* units of 0..cap-1 not covered by any reservation in the set R
+\* @type: (Set(<<Int, Int>>), Int) => Int;
 FreeUnits(R, cap) == Cardinality({ i \in 0..(cap - 1) : \A r \in R : ~(r[1] <= i /\ i < r[2]) })
 \* every reservation sits at one end of 0..cap
+\* @type: (Set(<<Int, Int>>), Int) => Bool;
 OnlyAtEnds(R, cap) == \A r \in R : r[1] = 0 \/ r[2] = cap
 =============================================================================
